@@ -102,7 +102,8 @@ Dest(c, i) ==
 
 \* ------------------------------------------------------------------ the initial tree of a case
 \* records [p |-> path, k |-> "f" | "d", c |-> content class]; directories that merely contain something are implied.
-\* content classes: "ok:<id>" healthy Lua, "syntax", "utf8", "rule" faulty Lua, "text" a non-Lua file, "pre" a pre-existing file
+\* content classes: "ok:<id>" healthy Lua, "syntax", "utf8", "rule" faulty Lua, "text" a non-Lua file, "pre" a pre-existing file,
+\* "lib:<m>" a library module outside the input
 F(p, cls) == [p |-> p, k |-> "f", c |-> cls]
 D(p)      == [p |-> p, k |-> "d", c |-> ""]
 
@@ -160,6 +161,7 @@ RefTree(c) == TreeWith(RefCase(c), Bundle(c))
 \* root-level filters: `skip_files: ['**/sub/**']` resp. `apply_to_files: ['**/sub/**']`
 InSub(i) == \E k \in 2..(Len(Src(i)) - 1) : Src(i)[k] = "sub"
 Excluded(c, i) == (c.cfg = "rootskip" /\ InSub(i)) \/ (c.cfg = "rootapply" /\ ~InSub(i))
+
 WellFormedCase(c) ==
   /\ c.root \in Roots /\ c.out \in OutForms /\ c.cfg \in Configs /\ c.ff \in BOOLEAN
   /\ c.st \in [E -> States]
